@@ -1,6 +1,8 @@
 """C07 - contact forces are reciprocal, short-ranged and push overlapping cells apart."""
+import os
 import runner as R
 from runner import Inv, Merged
+from checks.C15 import tsan_reports
 
 ID = "C07"
 MANIFEST = (
@@ -23,9 +25,24 @@ def run(tier, seed, t0):
         R.run_inv(Inv("contact", nm, "plain", cfg, args=["--mode=micro"], timeout=T(tier, 1800, 6 * 3600), tag="micro/%s" % cfg), seed, wd, m)
         R.run_inv(Inv("contact", nt, "plain", cfg, args=["--mode=tissue", "--max_cells=6"], threads=2, first=500000, timeout=T(tier, 1800, 6 * 3600), tag="tissue/%s" % cfg), seed, wd, m)
     R.run_inv(Inv("contact", nm // 10, "asan", "c1d0", args=["--mode=micro"], first=nm, timeout=T(tier, 1800, 6 * 3600), tag="micro/c1d0/asan"), seed, wd, m)
+    # dense clusters, 16 threads, repeated evaluation: a lost update in the concurrent force accumulation shows as a net force now and then
+    for cfg in ("c1d0", "c0d0", "c2d0"):
+        R.run_inv(Inv("contact", T(tier, 6, 200), "plain", cfg, args=["--mode=tissue", "--dense=1", "--max_cells=20", "--no_epi_pairs=1", "--repeat=%d" % T(tier, 12, 40)], threads=16, shards=1, first=700000,
+                      timeout=T(tier, 1800, 6 * 3600), tag="dense/%s/t16" % cfg), seed, wd, m)
+    # ThreadSanitizer on tissues without two epithelial cells (the coupling code of epithelial pairs reads partner state without its lock;
+    # that is outside this property): every force accumulation between interacting cells must be atomic
+    tenv = {"TSAN_OPTIONS": "halt_on_error=0:exitcode=0:log_path=%s:history_size=4:external_symbolizer_path=%s" % (os.path.join(wd, "tsan"), R.SYMBOLIZER)}
+    R.run_inv(Inv("contact", T(tier, 6, 100), "tsan", "c1d0", args=["--mode=tissue", "--dense=1", "--max_cells=8", "--no_epi_pairs=1", "--repeat=2"], threads=8, shards=2, first=800000,
+                  timeout=T(tier, 1800, 6 * 3600), env=tenv, tag="dense/c1d0/tsan"), seed, wd, m)
+    reps, total, norepo = tsan_reports(wd, R.builder.repo_dir())
+    m.add_bins({"tsan_reports_total": total, "tsan_distinct_keys": len(reps)})
+    for key, (cnt, sample) in sorted(reps.items()):
+        m.violations.append({"key": "c07." + key, "msg": "%d reports, first:\n%s" % (cnt, sample), "obs": {"reports": cnt}, "inv": "tsan",
+                             "replay": {"custom": True, "flavour": "tsan", "argv": ["python3", "check.py", "C07", "--tier", tier, "--seed", str(seed)], "note": "race reports vary from run to run: re-run the check"}})
     m.violations = [v for v in m.violations if v.get("crash") or v["key"].startswith("c07.")]
     floors = {"scenes_with_force_or_coupling": (m.nontrivial, 0.1 * m.evaluations), "forbidden_side_cases": (m.bins.get("forbidden_side_cases", 0), 0.2 * 3 * nm),
-              "coupled_cases": (m.bins.get("coupled_cases", 0) + m.bins.get("couplings", 0), 20), "single_cell_tissues": (m.bins.get("single_cell_tissues", 0), 0)}
+              "coupled_cases": (m.bins.get("coupled_cases", 0) + m.bins.get("couplings", 0), 20), "single_cell_tissues": (m.bins.get("single_cell_tissues", 0), 0),
+              "repeated_runs_16_threads": (m.bins.get("repeated_runs", 0), 150), "second_phase_histories": (m.bins.get("second_phase_histories", 0), 10)}
     for a in range(5):
         for b in range(5):
             floors["pair_class%d_on_class%d" % (a, b)] = (m.bins.get("pair:class%d_on_class%d" % (a, b), 0), 0.02 * 3 * nm)
